@@ -37,6 +37,7 @@ type VirtualMachine struct {
 	activeFrame  *frame
 	activeCode   *code
 	main         *compiler.Code
+	ranOther     bool // the last invocation ran code other than main (RunCode)
 	importer     importer.Importer
 	os           os.OS
 	modules      map[string]*object.Module
@@ -222,6 +223,11 @@ func (vm *VirtualMachine) runCodeInternal(ctx context.Context, codeToRun *compil
 	startIP := 0
 	if !resetState {
 		startIP = vm.ip
+		if vm.ranOther {
+			// vm.ip is where other code (RunCode) ended, not a position in
+			// the main code: start main from its beginning
+			startIP = 0
+		}
 		// Continuing with code that was extended since the last run (REPL
 		// usage): the result of the previous piece is no operand of this one.
 		// Without this, every piece leaves its value on the stack for good.
@@ -230,6 +236,7 @@ func (vm *VirtualMachine) runCodeInternal(ctx context.Context, codeToRun *compil
 		}
 		vm.sp = -1
 	}
+	vm.ranOther = resetState
 	vm.activateCode(0, startIP, codeObj)
 
 	// Run the entrypoint until completion
